@@ -268,6 +268,11 @@ func genC16(g *gen, seed int64) *Program {
 		a.OutMD = append(a.OutMD, KV{K: "x-sim-rpc", V: RawStr(fmt.Sprint(a.ID))})
 		b.OutMD = append(b.OutMD, KV{K: "x-sim-rpc", V: RawStr(fmt.Sprint(b.ID))})
 	}
+	// transport-level interceptors on one carrier only, while the decorated
+	// descriptions are shared by all carriers
+	if g.p(0.4) {
+		p.Cfg.TIntOnly = p.RPCs[g.pick(len(p.RPCs))].Transport
+	}
 	for _, r := range p.RPCs {
 		// no cancellation on the grpc-go reference carrier: its internal
 		// selects (data vs. reset, both ready) are decided by the Go runtime,
@@ -293,7 +298,7 @@ func oracleC16(s *Sim) {
 			mode int
 		}
 		var chain []lay
-		if (unary && cfg.TUnaryInt) || (!unary && cfg.TStreamInt) {
+		if ((unary && cfg.TUnaryInt) || (!unary && cfg.TStreamInt)) && (cfg.TIntOnly == "" || cfg.TIntOnly == r.Transport) {
 			chain = append(chain, lay{"T@" + r.Transport, 0})
 		}
 		// WithInterceptor layers wrap the description at registration time and
